@@ -345,8 +345,11 @@ func evaluateOperatorValue(node *ExprNode, data map[string]any) (any, error) {
 		return nil, err
 	}
 
-	// If any operand is NULL, result is NULL
-	if leftIsNull || rightIsNull {
+	// If any operand is NULL, result is NULL. A nested arithmetic operand reports a NULL
+	// result as (nil, isNull=false), so the value itself is checked as well: otherwise
+	// (a + 1) * 2 with a NULL fails with "operand cannot be converted to number"
+	// instead of propagating NULL.
+	if leftIsNull || rightIsNull || left == nil || right == nil {
 		return nil, nil
 	}
 
